@@ -11,6 +11,7 @@ From RPCX Require Client.ClientSM.
 From RPCX Require XClient.FailMode XClient.Multi XClient.Discovery.
 From RPCX Require Server.Dispatch.
 From RPCX Require Pool.Pool.
+From RPCX Require Server.Ingress.
 Extraction Language OCaml.
 Extraction "model.ml"
   RoundRobin.rr_new RoundRobin.rr_run
@@ -29,4 +30,5 @@ Extraction "model.ml"
   Multi.broadcast Multi.fork Multi.inform
   Discovery.drun Discovery.drain Discovery.filter_servers
   Dispatch.crun Dispatch.cinit
-  Pool.find_get Pool.find_put Pool.class_size Pool.last_class.
+  Pool.find_get Pool.find_put Pool.class_size Pool.last_class
+  Ingress.serve.
